@@ -579,6 +579,7 @@ def parse_derefs(repo):
     """every place where a RandomAccessIterator is dereferenced: (file, line-ish snippet, goes to a callback?)"""
     out = []
     seen_files = []
+    base_iterators = iterator_names(lex(join_continuations(strip_comments(read(repo, BASE)))))
     for g in DEREF_GLOBS:
         for p in sorted(glob.glob(os.path.join(repo, g))):
             rel = os.path.relpath(p, repo)
@@ -587,6 +588,8 @@ def parse_derefs(repo):
             seen_files.append(rel)
             toks = lex(join_continuations(strip_comments(open(p).read())))
             its = iterator_names(toks)
+            if rel.startswith(METHOD_DIR):
+                its |= base_iterators      # the data range is inherited from ImplementationBase
             if not its:
                 continue
             for i, t in enumerate(toks):
@@ -703,6 +706,8 @@ MUTATIONS = [
     ("include/tapkee/traits/callbacks_traits.hpp", r"typename C::dummy\*", "typename C::dummy_t*", "is_dummy looks for another typedef"),
     (METHOD_DIR + "/diffusion_map.hpp", r"compute_diffusion_matrix\(begin, end, distance,", "compute_diffusion_matrix(begin, end, Base::kernel,",
      "DiffusionMap passes Base::kernel"),
+    (METHOD_DIR + "/pca.hpp", r"DenseVector mean_vector = compute_mean\(", "IndexType first = *begin;\n        DenseVector mean_vector = compute_mean(",
+     "PCA reads the first data object as an index"),
     (BASE, r"return find_neighbors\(parameters\[neighbors_method\], begin, end, d,", "return find_neighbors(parameters[neighbors_method], begin, end, kernel_distance,",
      "find_neighbors_with ignores its argument and uses kernel_distance"),
 ]
